@@ -129,6 +129,19 @@ def _hook(ctx: Ctx, run: BuilderRun, mod: Any, valid_subject: bool, valid_servic
     return ctor_hook(ctx, module_call_hook(ctx, mod, [], [], record=[], base_hook=both))
 
 
+def make_builder(ctx: Ctx, definition: Optional[Sym] = None, allow_unregulated: bool = False, valid_subject: bool = True, valid_service: bool = True) -> Tuple[Any, BuilderRun, Any]:
+    """an abstract DataTypeBuilder built by its own constructor: (builder, the record of what it constructs, the hook)"""
+    cls = ctx.cls(DTB)
+    run = BuilderRun()
+    hook = _hook(ctx, run, cls.module, valid_subject, valid_service)
+    d = definition if definition is not None else definition_sym()
+    try:
+        b = construct(ctx, cls, d, [], [], Sym(_kind_="print-handler"), allow_unregulated, hook=hook)
+    except (Raised, Unfoldable) as ex:
+        raise AnalysisError("cannot evaluate the constructor of DataTypeBuilder: %s" % ex)
+    return b, run, hook
+
+
 def run_builder(ctx: Ctx, script: Sequence[Tuple[str, Tuple[Any, ...]]], definition: Optional[Sym] = None, allow_unregulated: bool = False, valid_subject: bool = True, valid_service: bool = True) -> BuilderRun:
     """
     script: the parser's callbacks in order, e.g. [("on_header_comment", ("doc",)), ("on_directive", (3, "sealed", None)),
